@@ -55,7 +55,22 @@ package drpchttp
 //@ func grpcRead
 //@   props C13 C14
 //@   requires r != nil
+//@   ghost entry hdr = nil
+//@   ghost after:readExactly#1 hdr = ret0
+//@   ghost entry herr = nil
+//@   ghost after:readExactly#1 herr = ret1
+//@   ghost entry body = nil
+//@   ghost after:readExactly#2 body = ret0
+//@   ghost entry berr = nil
+//@   ghost after:readExactly#2 berr = ret1
+//@   site readExactly#1 assert [C14.header-is-5-bytes] arg0 == r && arg1 == 5
+//@   site readExactly#2 assert [C14.length-from-header] arg0 == r && arg1 == uint64(be32(hdr[1:5])) && arg1 <= 4194304 && herr == nil
+//@   site New assert [C14.reject-only-oversize] herr == nil && be32(hdr[1:5]) > 4194304
 //@   ensures [limit] result1 == nil ==> len(result0) <= 4194304
+//@   check [C14.header-error]  herr != nil ==> result1 == herr && eventCount("call:readExactly") == 1
+//@   check [C14.oversize]      herr == nil && be32(hdr[1:5]) > 4194304 ==> result1 != nil && eventCount("call:readExactly") == 1
+//@   check [C14.body-error]    berr != nil ==> result1 != nil
+//@   check [C14.payload]       result1 == nil ==> result0 == body && berr == nil && herr == nil && eventCount("call:readExactly") == 2
 
 // twirp body: read to the end; a body over the limit is rejected, never truncated.
 //@ func twirpRead
@@ -64,6 +79,12 @@ package drpchttp
 //@   site ReadAll assert [C13.alloc-limit] bodyLen(arg0) <= 4194305
 //@   ensures [C14.reject-oversize] bodyLen(r) > 4194304 ==> result1 != nil
 //@   ensures [C14.never-truncated] result1 == nil ==> len(result0) == bodyLen(r)
+//@   ghost entry rerr = nil
+//@   ghost after:ReadAll rerr = ret1
+//@   ghost entry rdata = nil
+//@   ghost after:ReadAll rdata = ret0
+//@   check [C14.accept-up-to-limit] rerr == nil && bodyLen(r) <= 4194304 ==> result1 == nil && result0 == rdata
+//@   check [C14.read-error] rerr != nil ==> result1 == rerr
 
 // getCode walks the Cause/Unwrap chain with reflection; it must not panic for any error value,
 // including chains whose Cause()/Unwrap() returns nil.
@@ -73,6 +94,23 @@ package drpchttp
 //@   assumes "reflect: m.Call(nil) returns NumOut() results, and the code has just checked NumOut() == 1"
 //@   site (Value).Call assumeafter [reflect-call] len(ret) == 1
 //@   loop 1 invariant [i] 0 <= i && i <= 100
+//@   ghost entry nin = -1
+//@   ghost after:NumIn nin = ret
+//@   ghost entry nout = -1
+//@   ghost after:NumOut nout = ret
+//@   ghost entry knd = 0
+//@   ghost after:Kind knd = ret
+//@   ghost loop:1 nin = -1
+//@   ghost loop:1 nout = -1
+//@   ghost loop:1 knd = 0
+//@   site (Value).MethodByName assert [C14.twirp-code-method] arg1 == "Code"
+//@   site (Value).Call assert [C14.twirp-code-shape] nin == 0 && nout == 1 && knd == 24 && len(arg1) == 0
+//@   site Out assert [C14.twirp-code-result] arg1 == 0
+//@   site Sprintf assert [C14.drpc-code-text] arg0 == "drpcerr(%d)"
+//@   ghost entry dcode = 0
+//@   ghost after:Code#1 dcode = ret
+//@   check [C14.default-code] eventCount("call:(Value).Call") == 0 && dcode == 0 ==> result == "unknown"
+//@   check [C14.drpc-code-used] dcode != 0 ==> eventCount("call:Sprintf") == 1
 
 // ---- grpc-web
 
@@ -98,10 +136,29 @@ package drpchttp
 //@   modifies *
 //@   site (grpcWebProtocol).framedWrite assert [C14.size-checked-before-write] len(arg3) < 4194304 && arg2 == 0
 //@   check [C14.at-most-one-frame] eventCount("call:(grpcWebProtocol).framedWrite") <= 1
+//@   ghost entry merr = nil
+//@   ghost after:marshal merr = ret1
+//@   ghost entry mdata = nil
+//@   ghost after:marshal mdata = ret0
+//@   ghost entry werr = nil
+//@   ghost after:(grpcWebProtocol).framedWrite werr = ret
+//@   site marshal assert [C14.marshals-the-message] arg0 == msg && arg1 == enc
+//@   site (grpcWebProtocol).framedWrite assert [C14.frames-the-marshalled-bytes] arg3 == mdata && merr == nil && arg1 == gws.rw
+//@   check [C14.marshal-error] merr != nil ==> err == merr && eventCount("call:(grpcWebProtocol).framedWrite") == 0
+//@   check [C14.sent-or-error] err == nil ==> eventCount("call:(grpcWebProtocol).framedWrite") == 1 && werr == nil
+//@   check [C14.write-error]   werr != nil ==> err == werr
 
 //@ func (*grpcWebStream).MsgRecv
 //@   props C14 C13
 //@   modifies *
+//@   ghost entry rerr = nil
+//@   ghost after:read rerr = ret1
+//@   ghost entry rbuf = nil
+//@   ghost after:read rbuf = ret0
+//@   site read assert [C14.reads-the-body] arg0 == gws.in
+//@   site unmarshal assert [C14.decodes-what-was-read] arg0 == rbuf && rerr == nil && arg1 == msg && arg2 == enc
+//@   check [C14.read-error] rerr != nil ==> err == rerr && eventCount("dyn:unmarshal") == 0
+//@   check [C14.decoded]    rerr == nil ==> eventCount("dyn:unmarshal") == 1
 
 // Finish: grpc-status is "0" exactly when the outcome is success; every trailer value passes through
 // the CR/LF sanitiser, so error text cannot start a new trailer line.
@@ -133,12 +190,24 @@ package drpchttp
 //@   modifies *
 //@   check [C14.single-response] old(ts.sendErr) != nil ==> err == old(ts.sendErr) && ts.response == old(ts.response) && eventCount("dyn:marshal") == 0
 //@   check [C14.sticky] ts.sendErr != nil
+//@   ghost entry merr = nil
+//@   ghost after:marshal merr = ret1
+//@   ghost entry mdata = nil
+//@   ghost after:marshal mdata = ret0
+//@   site marshal assert [C14.marshals-the-message] arg0 == msg && arg1 == enc
+//@   check [C14.first-response-kept] old(ts.sendErr) == nil ==> eventCount("dyn:marshal") == 1 && err == merr && ts.response == mdata && (merr != nil ==> ts.sendErr == merr)
 
 //@ func (*twirpStream).MsgRecv
 //@   props C14 C13
 //@   requires ts.body != nil
 //@   modifies *
 //@   check [C14.single-request] old(ts.recvErr) != nil ==> err == old(ts.recvErr) && eventCount("call:twirpRead") == 0
+//@   ghost entry rerr = nil
+//@   ghost after:twirpRead rerr = ret1
+//@   ghost entry rbuf = nil
+//@   ghost after:twirpRead rbuf = ret0
+//@   site unmarshal assert [C14.decodes-what-was-read] arg0 == rbuf && rerr == nil && arg1 == msg && arg2 == enc && ts.recvErr != nil
+//@   check [C14.first-request] old(ts.recvErr) == nil ==> eventCount("call:twirpRead") == 1 && (rerr != nil ==> err == rerr && ts.recvErr == rerr && eventCount("dyn:unmarshal") == 0) && (rerr == nil ==> eventCount("dyn:unmarshal") == 1)
 
 // Finish: success writes 200 and the stored response; failure writes a non-zero status and a JSON body.
 //@ func (*twirpStream).Finish
@@ -149,6 +218,18 @@ package drpchttp
 //@   ghost call:WriteHeader code = arg1
 //@   check [C14.ok-200]    err == nil ==> code == 200 && eventCount("invoke:Write") == 1 && eventCount("invoke:WriteHeader") == 1
 //@   check [C14.err-status] err != nil ==> code != 0 || eventCount("call:Error") == 1
+//@   ghost entry tcode = ""
+//@   ghost after:getCode tcode = ret
+//@   ghost entry jerr = nil
+//@   ghost after:MarshalIndent jerr = ret1
+//@   ghost entry jdata = nil
+//@   ghost after:MarshalIndent jdata = ret0
+//@   site Write#1 assert [C14.ok-body] err == nil && arg1 == ts.response && code == 200
+//@   site WriteHeader#2 assert [C14.status-table] arg1 == ite(twirpStatus[tcode] == 0, 500, twirpStatus[tcode]) && jerr == nil
+//@   site (Header).Set assert [C14.json-content-type] arg1 == "Content-Type" && arg2 == "application/json" && eventCount("invoke:WriteHeader") == 0
+//@   site Write#2 assert [C14.json-body] arg1 == jdata && jerr == nil && eventCount("invoke:WriteHeader") == 1
+//@   site Error#2 assert [C14.marshal-failure-500] arg2 == 500 && jerr != nil
+//@   check [C14.err-body] err != nil && jerr == nil ==> eventCount("invoke:WriteHeader") == 1 && eventCount("invoke:Write") == 1 && eventCount("call:getCode") == 1
 
 // ServeHTTP: the protocol is chosen by the exact content type, with "*" as the fallback; the stream is
 // finished exactly once with the handler's result.
@@ -158,6 +239,16 @@ package drpchttp
 //@   modifies *
 //@   assumes "the protocol table always contains the fallback entry \"*\" (installed by defaultProtocols)"
 //@   site NewStream assume [fallback-present] arg0 != nil
+//@   ghost entry hres = nil
+//@   ghost after:HandleRPC hres = ret
+//@   ghost entry strm = nil
+//@   ghost after:NewStream strm = ret
+//@   ghost entry expect = nil
+//@   ghost after:(Header).Get expect = ite(haskey(w.opts.protocols, ret), w.opts.protocols[ret], w.opts.protocols["*"])
+//@   site (Header).Get assert [C14.by-content-type] arg1 == "Content-Type"
+//@   site NewStream assert [C14.protocol-choice] arg0 == expect && arg1 == rw
+//@   site HandleRPC assert [C14.dispatch] arg0 == w.handler && arg1 == strm && arg2 == req0.URL.Path
+//@   site Finish assert [C14.finish-with-result] arg0 == strm && arg1 == hres
 //@   check [C14.finish-once] eventCount("invoke:Finish") == 1 && eventCount("invoke:HandleRPC") == 1 && eventAfterLast("invoke:HandleRPC", "invoke:Finish")
 
 // Every handler gets its own protocol table (WithProtocol writes into it), with the fallback entry
@@ -175,8 +266,12 @@ package drpchttp
 //@ func (grpcWebProtocol).NewStream
 //@   props C14
 //@   requires rw != nil && req != nil
+//@   modifies *
+//@   site (Header).Set assert [C14.content-type] arg1 == "Content-Type" && arg2 == gwp.ct
 //@   ensures [stream] result != nil
 //@ func (twirpProtocol).NewStream
 //@   props C14
 //@   requires rw != nil && req != nil
+//@   modifies *
+//@   site (Header).Set assert [C14.content-type] arg1 == "Content-Type" && arg2 == tp.ct
 //@   ensures [stream] result != nil
